@@ -83,6 +83,8 @@ class Nest:
             fail(f"{where}:{loop.lineno}", "prange loop with else clause")
         self.var = loop.target.id
         self.body_bound = bound_names(loop.body)
+        if self.var in self.body_bound:
+            fail(f"{where}:{loop.lineno}", f"the prange variable {self.var} is rebound inside its loop body")
         # names bound in the function outside this loop body (parameters included)
         self.outer_bound = outer_bound
         self.alias = {}      # body-local name -> set of non-local arrays it may alias
